@@ -34,6 +34,7 @@ type vfC17Hook struct {
 	readN   map[string]int // requested address -> how many bytes the hook consumes
 	saw     map[string][]byte
 	udpSaw  [][]byte
+	udpAddr []string // the address each UDP hook call was asked about
 	rewrite func(addr string) string
 }
 
@@ -57,6 +58,7 @@ func (h *vfC17Hook) TCP(stream server.HyStream, reqAddr *string) ([]byte, error)
 func (h *vfC17Hook) UDP(data []byte, reqAddr *string) error {
 	h.mu.Lock()
 	h.udpSaw = append(h.udpSaw, append([]byte(nil), data...))
+	h.udpAddr = append(h.udpAddr, *reqAddr)
 	h.mu.Unlock()
 	*reqAddr = h.rewrite(*reqAddr)
 	return nil
@@ -234,24 +236,58 @@ func TestVerifC17ServerUDPFirstPacket(t *testing.T) {
 					mu.Unlock()
 				}, closed: make(chan struct{})}, nil
 			}
-			hc, _, _, err := w.HyClient("ok:c17u", nil)
-			if err != nil {
-				t.Fatalf("harness: client: %v", err)
-			}
-			uc, err := hc.UDP()
-			if err != nil {
-				t.Fatalf("harness: UDP(): %v", err)
-			}
 			payload := vfC17Content(i, size)
-			_ = uc.Send(payload, "origudp.verif:5353")
-			// (two packets handed to the simulated network at the same virtual instant may be delivered in either
-			// order, like real UDP: keep the two datagrams apart so that "first" is unambiguous)
-			time.Sleep(100 * time.Millisecond)
 			second := vfC17Content(i+1000, 50)
-			_ = uc.Send(second, "origudp.verif:5353")
+			lostFragment := i%3 == 2
+			closeClient := func() {}
+			if !lostFragment {
+				hc, _, _, err := w.HyClient("ok:c17u", nil)
+				if err != nil {
+					t.Fatalf("harness: client: %v", err)
+				}
+				uc, err := hc.UDP()
+				if err != nil {
+					t.Fatalf("harness: UDP(): %v", err)
+				}
+				closeClient = func() { _ = uc.Close() }
+				_ = uc.Send(payload, "origudp.verif:5353")
+				// (two packets handed to the simulated network at the same virtual instant may be delivered in either
+				// order, like real UDP: keep the two datagrams apart so that "first" is unambiguous)
+				time.Sleep(100 * time.Millisecond)
+				_ = uc.Send(second, "origudp.verif:5353")
+			} else {
+				// The session is OPENED by a fragment of a message that never completes and names another
+				// destination; the first COMPLETE message is the one the hook must be asked about and the one
+				// that is forwarded.
+				if size > 1000 {
+					payload = payload[:1000]
+				}
+				raw, err := w.RawClient()
+				if err != nil {
+					t.Fatalf("harness: raw client: %v", err)
+				}
+				if resp := raw.AuthReq("ok:c17raw", "0"); resp.Status != 233 {
+					t.Fatalf("harness: raw auth: %+v", resp)
+				}
+				_ = raw.Conn.SendDatagram(vfUDPMessageBytes(77, 4242, 0, 2, "lostfragment.verif:9999", []byte("head-of-a-message-that-never-completes")))
+				time.Sleep(100 * time.Millisecond)
+				_ = raw.Conn.SendDatagram(vfUDPMessageBytes(77, 0, 0, 1, "origudp.verif:5353", payload))
+				time.Sleep(100 * time.Millisecond)
+				_ = raw.Conn.SendDatagram(vfUDPMessageBytes(77, 0, 0, 1, "origudp.verif:5353", second))
+				k.Count("ev_udp_session_opened_by_lost_fragment", 1)
+			}
 			time.Sleep(2 * time.Second)
 			synctest.Wait()
-			rep := map[string]any{"case_id": caseID, "size": size}
+			rep := map[string]any{"case_id": caseID, "size": size, "session_opened_by_lost_fragment": lostFragment}
+			hook.mu.Lock()
+			for hi, a := range hook.udpAddr {
+				if a != "origudp.verif:5353" {
+					k.Violation("server:udp-hook-asked-about-wrong-address", rep, "UDP hook call %d was asked about %q; the message it was shown (%d bytes) was addressed to origudp.verif:5353", hi, a, len(hook.udpSaw[hi]))
+				} else if !bytes.Equal(hook.udpSaw[hi], payload) {
+					k.Violation("server:udp-hook-shown-wrong-data", rep, "UDP hook call %d was shown %d bytes, the first complete message has %d", hi, len(hook.udpSaw[hi]), len(payload))
+				}
+			}
+			hook.mu.Unlock()
 			mu.Lock()
 			if len(writes) < 1 {
 				k.Violation("server:udp-first-packet-not-forwarded", rep, "no datagram reached the outbound socket")
@@ -260,7 +296,7 @@ func TestVerifC17ServerUDPFirstPacket(t *testing.T) {
 				if !bytes.Equal(writes[0], payload) {
 					k.Violation("server:udp-first-packet-altered", rep, "the first datagram (%d bytes) reached the socket as %d different bytes", len(payload), len(writes[0]))
 				} else {
-					k.Nontrivial(fmt.Sprint(size))
+					k.Nontrivial(fmt.Sprint(size, lostFragment))
 				}
 				for _, d := range dests {
 					if d != "rewritten.verif:5353" {
@@ -272,7 +308,7 @@ func TestVerifC17ServerUDPFirstPacket(t *testing.T) {
 				}
 			}
 			mu.Unlock()
-			_ = uc.Close()
+			closeClient()
 			w.Close()
 		})
 	}
